@@ -17,6 +17,7 @@ func profileKnobs(profile string) knobs {
 	case "c01":
 		k.pCancel, k.pDeadline, k.pAdvance, k.pCut = 0, 0, 0, 0
 		k.pErr, k.pPlainErr, k.maxMsgs, k.pBig, k.pDeviate = 0.1, 0.02, 6, 0.06, 0.1
+		k.pDyn = 0.12
 	case "c01f":
 		k.pCancel, k.pDeadline, k.pCut, k.maxMsgs = 0.35, 0.15, 0.3, 6
 	case "c02":
@@ -30,13 +31,16 @@ func profileKnobs(profile string) knobs {
 		k.pCancel, k.pDeadline, k.pSleep, k.pWaitCtx, k.pClosure, k.pAdvance = 0.6, 0.4, 0.3, 0.2, 0.5, 0.1
 	case "c05":
 		k.pDeviate, k.pSplit, k.pCancel, k.pDeadline, k.pCloseRace = 0.7, 0.5, 0.3, 0.1, 0.5
+		k.pDyn, k.pExtraResp = 0.1, 0.1
 	case "c06":
 		k.transports = []string{TInproc}
 		k.pMutate, k.pJunkDst, k.pCancel, k.pDeadline = 0.8, 0.5, 0.4, 0.1
 		k.cloners = []int{0, 1, 2, 3, 4}
+		k.pDyn = 0.3
 	case "c08":
 		k.kinds = []int{KUnary, KClientStream}
 		k.pExtraResp, k.pCancel, k.pErr = 0.5, 0.1, 0.3
+		k.pDyn = 0.2
 	case "calg", "calgf":
 		// oracle calibration: the same generator on the reference transport
 		// (grpc-go over simnet); every oracle must accept what it does
